@@ -7,7 +7,8 @@ import numpy as np
 
 from cr.cube.cube import Cube
 
-from mc.common2d import Reg, display_map, expected_display, std_pairings, transforms_for, with_subtotals
+from mc.common2d import (SCALES, Reg, display_map, expected_display, scale_invariant, scaled_parts, std_pairings,
+                         transforms_for, with_subtotals)
 from mc.model import tabulate
 from mc.compare import arr_bytes, first_diff, num_eq, to_list
 from mc.engine import Res, digest, viol
@@ -133,7 +134,12 @@ def check(space, state):
                 V.append(viol(name + ":range", "%s has a value outside [0,1]: %r" % (name, x), output=name))
                 return
 
-    for part, (kind, _lbl, orc) in zip(cube.partitions, oracles):
+    scaled = {e: scaled_parts(sch, data, cfg, e) for e in SCALES} if (sch.weighted and data) else {}
+    for pidx, (part, (kind, _lbl, orc)) in enumerate(zip(cube.partitions, oracles)):
+        # weight-scale invariance: proportions are ratios of weighted counts
+        for e, sp in scaled.items():
+            asserted += scale_invariant(V, ["table_proportions"] if kind == "strand" else
+                                        ["row_proportions", "column_proportions", "table_proportions"], part, sp[pidx], e)
         if kind == "strand":
             rows = orc.rows
             ins = cfg.get("rows") or []
